@@ -34,7 +34,7 @@ RULE = (
     "signatures (sequence of op kind, sampling config, source size class, fault kinds fired, outcome class). "
     "stat scenarios: M samples from one source on the faithful seeded stream, empirical-Bernstein tests of per-value "
     "multiplicity, reachability, class and stratum sizes."
-    "Later rounds added: float32/unsigned/mixed class dtypes, integers beyond 2**53, extreme magnitudes, containers (list/tuple/strided/Series), "
+     " Later rounds added: float32/unsigned/mixed class dtypes, integers beyond 2**53, extreme magnitudes, containers (list/tuple/strided/Series), "
     "user subclasses with own constructors, copy/pickle of the source, very unequal classes, identical classes, sources of 33k-70k scores, positional / subclassed / reused configurations; "
     "stat variants: sparse proportion, tied sources, few scored next to many easy samples, independence tests."
 )
